@@ -73,36 +73,6 @@ theorem get_dealloc_other {s : St} {id k : Nat} {o : Obj} (hk : k ≠ id) : (dea
 theorem get_updBody_other {s : St} {id k : Nat} (f : Body → Body) (hk : k ≠ id) : (s.updBody id f).get k = s.get k := by
   rw [get_updBody]; cases s.get k <;> simp [hk]
 
-/-- a sweep step concerns a registered, hence heap, object: every other handle keeps its object, unchanged -/
-theorem sweepOne_get {s : St} (h : WF cfg s) (id : Nat) {k : Nat} {o : Obj} (hget : s.get k = some o)
-    (hn : o.hdr.alloc ≠ cfg.cHeap) : (sweepOne cfg s id).get k = some o := by
-  unfold sweepOne
-  split
-  · exact hget
-  · rename_i hr
-    have hreg : s.isReg id = true := by simpa using hr
-    obtain ⟨p, hp, hpid⟩ := isReg_true hreg
-    obtain ⟨o1, hget1, hheap1, _⟩ := h.reg p hp
-    rw [hpid] at hget1
-    have hk : k ≠ id := by
-      intro e; subst e; rw [hget] at hget1; cases hget1; exact hn hheap1
-    rw [hget1]
-    simp only
-    cases hdb : destructBody cfg o1.hdr o1.body with
-    | mk b out =>
-      cases out with
-      | ok =>
-        simp only
-        rw [get_dealloc_other hk, get_updBody_other _ hk]; exact hget
-      | raised e => exact hget
-      | ub => exact hget
-
-theorem foldl_sweepOne_get (l : List Nat) : ∀ {s : St}, WF cfg s → ∀ {k : Nat} {o : Obj}, s.get k = some o →
-    o.hdr.alloc ≠ cfg.cHeap → (l.foldl (sweepOne cfg) s).get k = some o := by
-  induction l with
-  | nil => intro s _ k o hget _; exact hget
-  | cons x r ih => intro s h k o hget hn; exact ih (wf_sweepOne h x) (sweepOne_get h x hget hn) hn
-
 /-- what iterating a container body hands out, in terms of its declared type -/
 theorem iterate_container {s : St} (hw : WF cfg s) (id : Nat) (o : Obj)
     (l : List (Option Seen)) (hget : s.get id = some o) (hit : s.iterate cfg id = some l) :
